@@ -95,6 +95,29 @@ def run(tier):
                 to = {"fail_call": k} if m == "call" else {"budget": k} if m == "budget" else {"chunk": k}
                 fjobs.append({"cfg": cfg, "ctx": ctx, "steps": [{"op": "add", "tpls": tpls}, dict(op, to=to)]})
                 fmeta.append((src, op["op"], m, k, full, sizes))
+    # the two channels agree on requests that FAIL as well: an unknown template / block / component, a block of a template
+    # that only inherits it from nowhere, a render error before and after some output
+    BT = [["b.html", "A{% block c %}<{{ x }}>{% endblock %}Z"], ["c.html", "{% extends 'b.html' %}{% block c %}[{{ super() }}]{% endblock %}"],
+          ["k.html", "{% component Card(title) %}<h1>{{ title }}</h1>{% endcomponent Card %}"], ["e1.html", "{{ nope }}abc"], ["e2.html", "abc{{ nope }}"]]
+    FREQ = [{"op": "render", "name": "nope.html"}, {"op": "render_block", "name": "c.html", "block": "nope"}, {"op": "render_block", "name": "b.html", "block": ""},
+            {"op": "render_block", "name": "nope.html", "block": "c"}, {"op": "render_block", "name": "k.html", "block": "c"},
+            {"op": "render_component", "name": "Nope", "auto": True, "ctx": {}}, {"op": "render_component", "name": "Card", "auto": True, "ctx": {}},
+            {"op": "render_component", "name": "Card", "auto": True, "ctx": {"title": 1, "zz": 2}}, {"op": "render", "name": "e1.html"}, {"op": "render", "name": "e2.html"},
+            {"op": "render_str", "src": "{% extends 'b.html' %}", "auto": True}, {"op": "render_str", "src": "ab{{ 1 / 0 }}", "auto": True},
+            {"op": "render_block", "name": "c.html", "block": "c"}]
+    qjobs = [{"cfg": {"autoescape": [".html"]}, "ctx": ECTX, "steps": [{"op": "add", "tpls": BT}, dict(q), dict(q, to={})]} for q in FREQ]
+    for q, rr, job in zip(FREQ, vp.run_jobs(qjobs, tag="c18-freq"), qjobs):
+        C.count()
+        C.nontrivial(["failing-request", json.dumps(q, sort_keys=True)])
+        a, b = rr[1], rr[2]
+        key = {"kind": "channels-on-failure", "op": q["op"], "name": q.get("name", q.get("src")), "block": q.get("block")}
+        if any(x.get("panic") or x.get("abort") for x in rr):
+            C.violation(dict(key, kind="panic"), "panic on %s" % q, {"job": job, "result": rr})
+        elif bool(a.get("ok")) != bool(b.get("ok")) or (a.get("ok") and a.get("out") != b.get("accepted")):
+            C.violation(key, "%s: the String channel gives %s, the writer channel %s" % (q, repr(a.get("out")) if a.get("ok") else "an error (%s)" % (a.get("msg") or a.get("disp", ""))[:80],
+                                                                                   ("Ok after writing %r" % b.get("accepted")) if b.get("ok") else "an error"), {"job": job, "result": rr})
+        elif not a.get("ok") and a.get("kind") != b.get("kind"):
+            C.violation(dict(key, kind="channels-error-kind"), "%s: the String channel fails with %s, the writer channel with %s" % (q, a.get("kind"), b.get("kind")), {"job": job, "result": rr})
     # purity across renders in one process/thread: a render that FAILS half way (inside a component body, a capture, an
     # include, a block) must leave nothing behind for the next render, of the same or of another instance
     FAILING = [("component", [["f.html", "{% component boom(x) %}<li>{{ x }} costs {{ nope }}</li>{% endcomponent boom %}{{<boom x='ink' />}}"]], "f.html"),
